@@ -251,6 +251,10 @@ func Run[C any](t *testing.T, id, sub string, gen func(*rapid.T) C, prop func(C)
 		}
 		record(id, sub, raw, &o, "ok", "replay", ms)
 		t.Logf("replay of %s passed", path)
+		if os.Getenv("VERIF_DEBUG") != "" {
+			obs, _ := json.MarshalIndent(o.Obs, "", " ")
+			t.Logf("labels %v\nobservation %s", o.Labels, obs)
+		}
 		return
 	case "corpus":
 		dir := os.Getenv("VERIF_CORPUS")
